@@ -3,6 +3,7 @@ import Driver.Chunker
 import Driver.Hashes
 import Driver.Bg4
 import Driver.CrashFS
+import Driver.ShardStream
 import Driver.Shard
 import Driver.InterpSearch
 import Driver.Dedup
@@ -36,6 +37,7 @@ def dispatch (blob : Blob) (line : String) : String :=
     else if cmd.startsWith "search." then handleSearch blob cmd rest
     else if cmd.startsWith "bg4." then handleBg4 blob cmd rest
     else if cmd.startsWith "crash." then handleCrash blob cmd rest
+    else if cmd.startsWith "sstream." then handleShardStream blob cmd rest
     else "bad-op"
 
 /-- usage: xetdriver <ops.txt> <blob.bin> <model.out> -/
